@@ -237,6 +237,10 @@ func (w *faWalker) walk(v reflect.Value, hole int, path string) {
 	}
 }
 
+// faLenVarOff switches the LENVAR variation off for the next faSymbolise call
+// (whole-file harnesses vary one site per run, not every site at once).
+var faLenVarOff bool
+
 func faIsLetter(c byte) bool { return nd.And(c >= 'a', c <= 'z') }
 
 // symbolise replaces every collected leaf by a fresh symbolic value of the
@@ -246,7 +250,7 @@ func faSymbolise(leaves []*faLeaf) {
 	// the site is one byte LONGER than the instance's, so "equal up to length"
 	// comparisons are exercised too.
 	lenLeaf := -1
-	if nd.Param("LENVAR", 0) == 1 && len(leaves) > 0 {
+	if nd.Param("LENVAR", 0) == 1 && len(leaves) > 0 && !faLenVarOff {
 		lenLeaf = nd.Choose("lenleaf", len(leaves)+1) - 1
 	}
 	for k, l := range leaves {
